@@ -76,6 +76,8 @@ def solve_dump(rec, outcome, with_results=True, with_counters=True):
            "objective": None if rec.get("objective") is None else expr_dump(rec["objective"]), "sent": sent,
            "n_inner": len(rec["inner"]), "inner_status": [str(x.get("status")) for x in rec["inner"]],
            "solver": [str(x.get("solver")) for x in rec["inner"]]}
+    if rec.get("weights"):
+        out["heuristic_weights"] = [_arr(W) for W in rec["weights"]]
     w = rec.get("wrapper")
     task = getattr(w, "task", None)
     if task is not None and hasattr(task, "calls"):
